@@ -16,6 +16,7 @@ enum OpCode {
 };
 const char* op_name(int code);
 
+static const uint64_t SEL_LAST = ((uint64_t)1 << 55) - 1;   // handle selector meaning 'the most recently created candidate'
 struct HOp { int code = 0; uint64_t a = 0, b = 0, c = 0, d = 0; int fk = 0; uint64_t fkk = 0; };
 HOp hop_from_json(const J& j);
 J hop_to_json(const HOp& o);
@@ -39,6 +40,7 @@ class Hist {
   std::vector<HNode> nodes;
   std::vector<int> pool;                 // one entry per reference the client holds
   bool seen_shared = false;              // some item was referenced from two places at once
+  bool exact_fault = false;              // W2: use the fault index as given (no modulo)
   bool image_check = false;              // C06: compare byte images of all pre-existing blocks around a refused op
   uint64_t shared_releases = 0, items_released = 0, copies = 0, copy_then_touched = 0, refusals_capacity = 0, refusals_index = 0, inserts_ok = 0, cascades3 = 0;
   uint64_t serial_checked_nontrivial = 0, roundtrips = 0, fired_faults = 0, failed_after_move = 0, tag_repointed = 0, replace_last_ref = 0;
